@@ -469,6 +469,9 @@ const HOST_ENTRIES: &[(&str, &str)] = &[
     ("  127.0.0.1   spaced.example.net  ", "spaced.example.net"),
     ("www.www.example.io", "example.io"),
     ("0.0.0.0 MÜNCHEN.example", "xn--mnchen-3ya.example"),
+    (".dot.example.com", ".dot.example.com"),
+    ("127.0.0.1 ..two.example.net", "..two.example.net"),
+    ("www..x.example.org", ".x.example.org"),
 ];
 
 fn hosts_equivalence(ctx: &mut Ctx) {
